@@ -809,3 +809,102 @@ def stage_memcheck(pid, stage, tier, replay_path=None):
 
 
 register_stage("memcheck", stage_memcheck)
+
+
+# ---------------------------------------------------------------------------------------------------
+# coverage-guided stage (DESIGN.md sec. 3.7): the rapidcheck driver's own translation unit built as a libFuzzer target
+# (-DVF_CGF); input = binary field image of the Case, structural custom mutator, normalisation into the property's domain,
+# the same oracle.  Seeds: the saved replays and a sample of rapidcheck-generated cases, converted by the asan driver.
+# ---------------------------------------------------------------------------------------------------
+CGF_FLAGS = ("-DVF_CGF", "-Dmain=vf_driver_main")
+
+
+def stage_cgf(pid, stage, tier, replay_path=None):
+    out = StageOutcome(stage["name"])
+    out.driver = stage["driver"]
+    cfg = stage[tier]
+    if cfg is None:
+        return out
+    asan_bin = vfbuild.build_driver(stage["driver"], "asan", stage["src"])
+    fuzz_bin = vfbuild.build_driver("cgf_" + stage["driver"][4:], "fuzz", stage["src"], CGF_FLAGS)
+    wd = workdir(pid, stage["name"])
+    base = seed_base()
+    t0 = time.time()
+    # seed corpus
+    dump = os.path.join(wd, "seed-cases")
+    seeds = os.path.join(wd, "seed-corpus")
+    os.makedirs(dump)
+    os.makedirs(seeds)
+    env = env_for({"RC_PARAMS": "seed=%d max_success=%d max_size=100" % (base * 1000 + 777, cfg.get("seed_cases", 300))})
+    run_proc([asan_bin, "--run", "--tier", "quick", "--dump-dir", dump, "--dump-every", "2", "--dump-max", "200",
+              "--faildir", os.path.join(wd, "fails")], env, 600, os.path.join(wd, "seedgen-log.txt"))
+    files = sorted(glob.glob(os.path.join(dump, "*.case")))
+    if not (os.environ.get("VERIF_SKIP_REPLAYS") and os.environ.get("VERIF_REPO")):
+        files += sorted(glob.glob(os.path.join(REPLAYS, pid, stage["driver"], "*.case")))
+    for i in range(0, len(files), 200):
+        run_proc([asan_bin, "--to-bin", seeds] + files[i:i + 200], env_for(), 600, os.path.join(wd, "tobin-log.txt"))
+    workers = cfg.get("workers", 8)
+    jobs = []
+    for k in range(workers):
+        cdir = os.path.join(wd, "corpus-%d" % k)
+        os.makedirs(cdir)
+        if k % 2 == 0:
+            for f in os.listdir(seeds):
+                shutil.copyfile(os.path.join(seeds, f), os.path.join(cdir, f))
+        adir = os.path.join(wd, "art-%d" % k) + "/"
+        os.makedirs(adir)
+        fdir = os.path.join(wd, "fails-%d" % k)
+        os.makedirs(fdir)
+        env = env_for({"VF_STATS": os.path.join(wd, "stats-%d.json" % k), "VF_FAILDIR": fdir,
+                       "ASAN_OPTIONS": ASAN_ENV["ASAN_OPTIONS"].replace("detect_leaks=1", "detect_leaks=0")})
+        cmd = [fuzz_bin, cdir, "-runs=%d" % cfg.get("runs", 10000), "-seed=%d" % (base * 1000 + k + 1), "-max_len=%d" % cfg.get("max_len", 65536),
+               "-artifact_prefix=" + adir, "-print_final_stats=1", "-timeout=60", "-rss_limit_mb=4096", "-detect_leaks=0",
+               "-use_value_profile=%d" % (1 if k % 4 in (1, 2) else 0)]
+        jobs.append((cmd, env, cfg.get("timeout", 7200), os.path.join(wd, "log-%d.txt" % k)))
+    results = run_parallel(jobs)
+    out.wall = time.time() - t0
+    cov = []
+    for k, (rc, _) in enumerate(results):
+        log = jobs[k][3]
+        st = load_stats(os.path.join(wd, "stats-%d.json" % k))
+        if st:
+            out.stats.append(st)
+        txt = read_tail(log, 400000)
+        mm = re.findall(r"cov: (\d+) ft: (\d+) corp: (\d+)", txt)
+        if mm:
+            cov.append("w%d cov=%s ft=%s corp=%s" % (k, mm[-1][0], mm[-1][1], mm[-1][2]))
+        if rc == 0:
+            continue
+        if rc in (-9, -15):
+            out.notes.append("worker %d was killed from outside (signal %d): INCONCLUSIVE for its inputs" % (k, -rc))
+            continue
+        if rc == "timeout":
+            out.notes.append("worker %d hit the watchdog: inconclusive" % k)
+            continue
+        found = fail_from_log(log)
+        adir = os.path.join(wd, "art-%d" % k)
+        arts = sorted(os.listdir(adir))
+        crashes = [a for a in arts if a.startswith("crash-")]
+        if found and os.path.exists(found[0]):
+            if not out.failure:
+                out.failure = (found[0], found[1], stage, log)
+            continue
+        if crashes:
+            # a sanitizer report: the artifact is the binary image; the text case it stands for is the replay file
+            case = os.path.join(wd, "%s-cgf-crash-w%d.case" % (pid, k))
+            r = subprocess.run([asan_bin, "--from-bin", os.path.join(adir, crashes[0])], stdout=subprocess.PIPE, stderr=subprocess.DEVNULL, env=env_for())
+            with open(case, "wb") as f:
+                f.write(b"# crashed while running this case (coverage-guided stage)\n" + r.stdout)
+            if not out.failure:
+                out.failure = (case, "process died: " + sanitizer_summary(log), stage, log)
+            continue
+        slow = [a for a in arts if a.startswith(("timeout-", "oom-", "slow-unit-"))]
+        if slow:
+            out.notes.append("worker %d: %s (load noise unless it reproduces; not a verdict)" % (k, ", ".join(slow[:3])))
+        else:
+            out.notes.append("worker %d exited with status %s without an artifact (see %s)" % (k, rc, log))
+    out.notes.append("; ".join(cov))
+    return out
+
+
+register_stage("cgf", stage_cgf)
